@@ -140,7 +140,9 @@ def root_development(
         dZr = Zr - ZrOld
 
         # Adjust expansion rate for presence of restrictive soil horizons
-        if Zr > Crop.Zmin:
+        def restricted_depth(Zr):
+            # Root depth reached when the potential depth Zr (> Zmin) is
+            # slowed down by the penetrability of the soil layers below Zmin
             layeri = 1
             l_idx = np.argwhere(prof.Layer == layeri).flatten()
             Zsoil = prof.dz[l_idx].sum()
@@ -175,8 +177,15 @@ def root_development(
                     Zsoil = Zsoil + soil_layer_dz
                     deltaZ = soil_layer_dz
 
-            # Correct Zr and dZr for effects of restrictive horizons
-            Zr = ZrOUT
+            return ZrOUT
+
+        if Zr > Crop.Zmin:
+            # Correct Zr and dZr for effects of restrictive horizons (both the
+            # current and the previous day's potential depth are restricted,
+            # otherwise the increment is negative as soon as a layer restricts)
+            Zr = restricted_depth(Zr)
+            if ZrOld > Crop.Zmin:
+                ZrOld = restricted_depth(ZrOld)
             dZr = Zr - ZrOld
 
         # Adjust rate of expansion for any stomatal water stress
